@@ -19,13 +19,17 @@ type ParserData struct {
 	loopInfo      []struct {
 		continueIndex int
 		breakIndex    int
+		blockIndex    int // 进入循环体时 openBlocks 的长度
 	}
 	loopLayer int // 当前loop层数
 	codeStack []struct {
-		code    []ByteCode
-		index   int
-		textPos int
+		code       []ByteCode
+		index      int
+		textPos    int
+		openBlocks []CodeType
 	}
+	// 当前代码体内已 push 尚未 pop 的语句块(block / fstr.block)，break 与 continue 跳转前需要先将循环体内的这些块闭合
+	openBlocks []CodeType
 }
 
 type BufferSpan struct {
@@ -45,7 +49,8 @@ func (e *ParserData) LoopBegin() {
 	e.loopInfo = append(e.loopInfo, struct {
 		continueIndex int
 		breakIndex    int
-	}{continueIndex: len(e.continueStack), breakIndex: len(e.breakStack)})
+		blockIndex    int
+	}{continueIndex: len(e.continueStack), breakIndex: len(e.breakStack), blockIndex: len(e.openBlocks)})
 }
 
 func (e *ParserData) LoopEnd() {
@@ -53,7 +58,23 @@ func (e *ParserData) LoopEnd() {
 	info := e.loopInfo[len(e.loopInfo)-1]
 	e.continueStack = e.continueStack[:info.continueIndex]
 	e.breakStack = e.breakStack[:info.breakIndex]
+	if len(e.openBlocks) > info.blockIndex {
+		e.openBlocks = e.openBlocks[:info.blockIndex]
+	}
 	e.loopInfo = e.loopInfo[:len(e.loopInfo)-1]
+}
+
+// closeLoopBlocks 在 break/continue 的跳转之前，闭合循环体内已打开的语句块(如 if、模板内的语句块)，
+// 否则每次跳转都会在运行时的块栈上遗留一层，循环20次后溢出
+func (e *ParserData) closeLoopBlocks() {
+	info := e.loopInfo[len(e.loopInfo)-1]
+	for i := len(e.openBlocks) - 1; i >= info.blockIndex; i-- {
+		if e.openBlocks[i] == typeFStringBlockPush {
+			e.WriteCode(typeFStringBlockPop, nil)
+		} else {
+			e.WriteCode(typeBlockPop, nil)
+		}
+	}
 }
 
 func (e *ParserData) checkStackOverflow() bool {
@@ -91,6 +112,14 @@ func (e *ParserData) AddOp(operator CodeType) {
 	var val interface{} = nil
 	if operator == typeJne || operator == typeJmp {
 		val = IntType(0)
+	}
+	switch operator {
+	case typeBlockPush, typeFStringBlockPush:
+		e.openBlocks = append(e.openBlocks, operator)
+	case typeBlockPop, typeFStringBlockPop:
+		if n := len(e.openBlocks); n > 0 {
+			e.openBlocks = e.openBlocks[:n-1]
+		}
 	}
 	e.WriteCode(operator, val)
 }
@@ -183,6 +212,7 @@ func (p *ParserData) ContinuePush() error {
 		if p.continueStack == nil {
 			p.continueStack = []IntType{}
 		}
+		p.closeLoopBlocks()
 		p.AddOp(typeJmp)
 		p.continueStack = append(p.continueStack, IntType(p.codeIndex)-1)
 	} else {
@@ -217,6 +247,7 @@ func (p *ParserData) BreakPush() error {
 		if p.breakStack == nil {
 			p.breakStack = []IntType{}
 		}
+		p.closeLoopBlocks()
 		p.AddOp(typeJmp)
 		p.breakStack = append(p.breakStack, IntType(p.codeIndex)-1)
 		return nil
@@ -361,12 +392,14 @@ func (p *ParserData) AddAttrSet(objName string, attr string, isRaw bool) {
 
 func (p *ParserData) CodePush(textPos int) {
 	p.codeStack = append(p.codeStack, struct {
-		code    []ByteCode
-		index   int
-		textPos int
-	}{code: p.code, index: p.codeIndex, textPos: textPos})
+		code       []ByteCode
+		index      int
+		textPos    int
+		openBlocks []CodeType
+	}{code: p.code, index: p.codeIndex, textPos: textPos, openBlocks: p.openBlocks})
 	p.code = make([]ByteCode, 256)
 	p.codeIndex = 0
+	p.openBlocks = nil
 }
 
 func (p *ParserData) CodePop() ([]ByteCode, int, int) {
@@ -377,5 +410,6 @@ func (p *ParserData) CodePop() ([]ByteCode, int, int) {
 	p.codeStack = p.codeStack[:last]
 	p.code = info.code
 	p.codeIndex = info.index
+	p.openBlocks = info.openBlocks
 	return lastCode, lastIndex, info.textPos
 }
